@@ -579,6 +579,24 @@ impl Gen {
             if moffs {
                 p.op = MemoryOperand::new(Register::None, Register::None, 1, 0, 8, false, seg);
             }
+            // the destination register is also an ADDRESS register of the source operand (mov eax,[rax] / cmovne ecx,[rsi+rcx*4]):
+            // the address is formed from the register's value BEFORE the instruction writes it
+            if !moffs && !rsp_operand && !stack_like && self.rng.gen_bool(0.15) {
+                if let Some(O::R(r0)) = ops.first() {
+                    if let Some(ix) = gpr_index(r0.full_register()) {
+                        let areg = |i: usize| -> Register {
+                            if asz32 { regs_of_width(32).into_iter().find(|r| r.full_register() == GPR64[i]).unwrap() } else { GPR64[i] }
+                        };
+                        if p.index.is_some() && ix != 6 && p.base != Some(ix) && self.rng.gen_bool(0.6) {
+                            p.op.index = areg(ix);
+                            p.index = Some(ix);
+                        } else if p.base.is_some() && p.index != Some(ix) {
+                            p.op.base = areg(ix);
+                            p.base = Some(ix);
+                        }
+                    }
+                }
+            }
             plan = Some(p);
         }
         // construct once to learn the memory access size, then fix registers
@@ -1280,7 +1298,7 @@ pub fn gen_family(g: &mut Gen, family: &str, per_form: usize, forms: &std::colle
             "flow" => cls == "flow",
             "stack" => cls == "stack" || matches!(m, Mnemonic::Call | Mnemonic::Ret),
             "ea" => matches!(m, Mnemonic::Lea | Mnemonic::Mov | Mnemonic::Movzx | Mnemonic::Add | Mnemonic::Movups | Mnemonic::Inc | Mnemonic::Neg
-                             | Mnemonic::Not | Mnemonic::Dec) && has_mem,
+                             | Mnemonic::Not | Mnemonic::Dec | Mnemonic::Cmovae | Mnemonic::Cmove | Mnemonic::Cmovne | Mnemonic::Movsxd) && has_mem,
             "fault" => matches!(m, Mnemonic::Div | Mnemonic::Idiv | Mnemonic::Xorps | Mnemonic::Movups) || (has_mem && cls == "data"),
             _ => false,
         };
@@ -1343,8 +1361,15 @@ pub fn gen_family(g: &mut Gen, family: &str, per_form: usize, forms: &std::colle
                     let shape = [MemShape::Base, MemShape::BaseDisp8, MemShape::BaseIndex, MemShape::Abs32][g.rng.gen_range(0..4)];
                     // alignment-checked 128-bit operands also behind FS / GS bases that are not 16-byte aligned
                     let wide = (0..code.op_code().op_count()).any(|i| code.op_code().op_kind(i) == K::xmm_or_mem);
-                    let seg = if wide && has_mem && g.rng.gen_bool(0.5) { if g.rng.gen_bool(0.6) { Register::GS } else { Register::FS } } else { Register::None };
-                    if let Some(c) = g.make(code, family, has_mem, shape, place, false, seg, pad) {
+                    let mut seg = if wide && has_mem && g.rng.gen_bool(0.5) { if g.rng.gen_bool(0.6) { Register::GS } else { Register::FS } } else { Register::None };
+                    // the 32-bit address size together with a segment base (only the OFFSET wraps at 4 GiB, the base is added afterwards):
+                    // with a base beyond 4 GiB the access lands far from every mapping and must fault
+                    let mut asz32 = false;
+                    if !wide && has_mem && g.rng.gen_bool(0.12) {
+                        asz32 = true;
+                        seg = if g.rng.gen_bool(0.5) { Register::GS } else { Register::FS };
+                    }
+                    if let Some(c) = g.make(code, family, has_mem, shape, place, asz32, seg, pad) {
                         out.push(c);
                     }
                 }
